@@ -35,7 +35,7 @@ SKIP_FUNCS = {
                     'get_soap_client', '_get_zeep_soap_client', '_get_suds_soap_client',
                     '_get_pysimplesoap_soap_client', '_mk_char_map'},
 }
-SKIP_PREFIX = ('check_', '_check_', '_convert_result')
+SKIP_PREFIX = ('check_', '_convert_result')
 
 
 def _iban_structures():
@@ -54,6 +54,38 @@ def _iban_structures():
 # functions that build a value the model cannot compute symbolically (a compiled pattern from a format string):
 # tabulated by evaluating the real function on every argument that can reach it from the current data
 TABULATED = {('stdnum.iban', '_struct_to_re'): _iban_structures}
+
+
+def warm_variant(code, caches):
+    """State-passing twin of a function that uses a module-level cache dictionary: `f__warm cache0 args` starts from
+    an arbitrary cache content and returns the result together with the new content.  (`f` itself is the cold-cache
+    function; Props/C13w proves that both give the same result for every cache content satisfying the invariant.)
+    Produced textually from the emitted definition; only for the simple shape (one cache, single-line returns,
+    no nested `do` blocks returning)."""
+    if len(caches) != 1:
+        return None
+    c = caches[0]
+    lines = code.split('\n')
+    m = re.match(r'^def (\S+) (.*) : R (.+) := do$', lines[0])
+    if not m:
+        return None
+    decl = [i for i, l in enumerate(lines) if re.match(r'^  let mut %s : (.+) := (.+)$' % re.escape(c), l)]
+    if len(decl) != 1:
+        return None
+    ct = re.match(r'^  let mut %s : (.+?) := ' % re.escape(c), lines[decl[0]]).group(1)
+    if any('(do' in l or 'try' in l.split() for l in lines[1:]):
+        return None
+    out = ['def %s__warm (cache0__ : %s) %s : R (%s × %s) := do' % (m.group(1), ct, m.group(2), m.group(3), ct)]
+    for i, l in enumerate(lines[1:], 1):
+        if i == decl[0]:
+            out.append('  let mut %s : %s := cache0__' % (c, ct))
+            continue
+        r = re.match(r'^(\s*)return (.*)$', l)
+        if r:
+            out.append('%sreturn (%s, %s)' % (r.group(1), r.group(2), c))
+        else:
+            out.append(l)
+    return '\n'.join(out)
 
 
 class ModuleTranslator:
@@ -177,6 +209,9 @@ class ModuleTranslator:
                 flags = self.const_int_expr(kw.value)
             else:
                 raise Unsupported('re keyword ' + str(kw.arg))
+        if args and isinstance(args[0], ast.Name) and args[0].id in getattr(ft, 'loop_consts', {}) \
+                and kind in ('match', 'search', 'fullmatch'):
+            return self.re_table_call(kind, e, ft, flags)
         if not args or not isinstance(args[0], ast.Constant) or not isinstance(args[0].value, str):
             raise Unsupported('re.%s with non-literal pattern' % kind)
         pat = args[0].value
@@ -204,6 +239,40 @@ class ModuleTranslator:
                 raise Unsupported('re.sub argument types')
             return ('(← Re.sub %s %s %s)' % (self.regex_literal(pat, flags), par(r), par(v)), 'str')
         raise Unsupported('re.' + kind)
+
+    def re_table_call(self, kind, e, ft, flags):
+        """re.match(fmt, s[, flags]) where fmt is the variable of a loop over a module-level constant list of strings:
+        the patterns are compiled here (all values of the list, with the flags of the call) into a table"""
+        import regex_ser
+        from pytypes import lit_str
+        from translate import MultiPattern
+        args = list(e.args)
+        if len(args) == 3:
+            flags = self.const_int_expr(args[2])
+        elif len(args) != 2:
+            raise Unsupported('re.%s arity' % kind)
+        vals = ft.loop_consts[args[0].id]
+        pv, pt = ft.expr(args[0])
+        v, t = ft.expr(args[1])
+        if t != 'str' or pt != 'str':
+            raise Unsupported('re.%s subject type %s' % (kind, t))
+        key = 'retab:%r:%d' % (tuple(vals), flags)
+        if key not in self.consts:
+            name = '_re_tab_%d' % sum(1 for k in self.consts if k.startswith('retab:'))
+            try:
+                rows = ['(%s, %s)' % (lit_str(x), regex_ser.regex_to_lean(x, flags)) for x in dict.fromkeys(vals)]
+            except regex_ser.Unsupported as u:
+                raise Unsupported('regex table: %s' % u)
+            self.consts[key] = ('/-- the patterns of a constant list, compiled with the flags of the call site -/\n'
+                                'def %s : List (Str × Re.Pattern) := [%s]' % (name, ',\n  '.join(rows)))
+            self.relit_names[key] = name
+        try:
+            ft.last_pattern = MultiPattern([re.compile(x, flags) for x in vals])
+        except re.error:
+            raise Unsupported('regex table: invalid pattern')
+        pat = ('(← (match Py.dictGet? Gen.%s.%s %s with | some p__ => pure p__ | none => Py.raise .other : R Re.Pattern))'
+               % (self.ns, self.relit_names[key], par(pv)))
+        return ('(Re.%s %s %s)' % ('match_' if kind == 'match' else kind, pat, par(v)), 'opt[match]')
 
     def const_int_expr(self, node):
         """evaluate a constant flags expression such as re.I | re.U"""
@@ -288,6 +357,76 @@ class ModuleTranslator:
         if today:
             ft.uses_today = True
         return ('(← Gen.%s.%s%s %s%s)' % (self.ns, name, ' today__' if today else '', par(mcode), ''.join(' ' + par(v) for v, _ in given)), rt)
+
+    STNR_FORMAT_CLASS = '''
+class _Format():
+
+    def __init__(self, fmt):
+        self._fmt = fmt
+        self._re = re.compile('^%s$' % re.sub(
+            r'([FBUP])\\1*',
+            lambda x: r'(\\d{%d})' % len(x.group(0)), fmt))
+
+    def match(self, number):
+        return self._re.match(number)
+
+    def replace(self, f, b, u, p):
+        items = iter([f, b, u, p])
+        return re.sub(r'([FBUP])\\1*', lambda x: next(items), self._fmt)
+'''
+
+    def ensure_stnr_format(self):
+        """`stdnum.de.stnr._Format`: an instance is represented by its `_fmt` string.  `match` goes through a table
+        `_fmt -> compiled pattern` read off the instances of the imported module (so `__init__` is taken by
+        evaluation), `replace` is `Py.subRunsNext`; both are valid only for the class text above, which is compared
+        with the class in the tree."""
+        if 'cls:_Format' in self.consts:
+            return
+        import regex_ser
+        from pytypes import lit_str
+        node = next((st for st in self.tree.body if isinstance(st, ast.ClassDef) and st.name == '_Format'), None)
+        want = ast.parse(self.STNR_FORMAT_CLASS).body[0]
+        if node is None or ast.dump(node) != ast.dump(want) or self.name != 'stdnum.de.stnr':
+            raise Unsupported('class _Format differs from the modelled one')
+        cls = getattr(self.mod, '_Format')
+        found = {}
+
+        def walk(v, depth=0):
+            if isinstance(v, cls):
+                pat = (v._re.pattern, v._re.flags)
+                if found.setdefault(v._fmt, pat) != pat:
+                    raise Unsupported('_Format instances with equal _fmt and different patterns')
+            elif depth < 6 and isinstance(v, (list, tuple, set, frozenset)):
+                for x in v:
+                    walk(x, depth + 1)
+            elif depth < 6 and isinstance(v, dict):
+                for x in v.values():
+                    walk(x, depth + 1)
+        for k, v in vars(self.mod).items():
+            if not k.startswith('__'):
+                walk(v)
+        try:
+            rows = ['(%s, %s)' % (lit_str(f), regex_ser.regex_to_lean(pt, fl)) for f, (pt, fl) in found.items()]
+        except regex_ser.Unsupported as u:
+            raise Unsupported('regex of _Format: %s' % u)
+        self.consts['cls:_Format'] = (
+            '/-- `_Format(fmt)._re` for every `_Format` instance of the module (evaluated) -/\n'
+            'def _Format_table : List (Str × Re.Pattern) := [%s]\n\n'
+            '/-- the compiled pattern of a `_Format` instance given by its `_fmt`; a value that is not in the table '
+            'cannot arise (instances come from module constants only) and is outside the model (`.other`) -/\n'
+            'def _Format_re (fmt : Str) : R Re.Pattern :=\n  match Py.dictGet? _Format_table fmt with\n'
+            '  | some p => .ok p\n  | none => Py.raise .other' % ',\n  '.join(rows))
+
+    def hasattr_call(self, e, ft):
+        """hasattr(<module value>, 'literal'): evaluated on every module that can flow into module values of this file"""
+        if e.keywords or len(e.args) != 2 or not (isinstance(e.args[1], ast.Constant) and isinstance(e.args[1].value, str)):
+            raise Unsupported('hasattr form')
+        v, t = ft.expr(e.args[0])
+        if t != 'module':
+            raise Unsupported('hasattr of ' + t)
+        attr = e.args[1].value
+        have = [mn for mn in self.module_universe() if hasattr(sys.modules.get(mn) or importlib.import_module(mn), attr)]
+        return ('(([%s] : List String).contains %s)' % (', '.join('"%s"' % mn for mn in have), par(v)), 'bool')
 
     def module_universe(self):
         """all modules that can flow into module-typed values of this file"""
@@ -514,6 +653,16 @@ class ModuleTranslator:
         try:
             ft = FuncTranslator(self, fn, sig)
             code = ft.translate()
+            warm = warm_variant(code, [mangle(g) for g in self.cache_globals()
+                                       if any(isinstance(n, ast.Name) and n.id == g for n in ast.walk(fn))])
+            if warm:
+                code = code + '\n\n' + warm
+                g = [g for g in self.cache_globals() if any(isinstance(n, ast.Name) and n.id == g for n in ast.walk(fn))][0]
+                if not hasattr(self.ctx, 'warm'):
+                    self.ctx.warm = {}
+                self.ctx.warm['%s:%s' % (self.name, sig.name)] = {
+                    'lean': sig.lean_name + '__warm', 'cache': g, 'cache_type': ft.var_decl[mangle(g)],
+                    'ptypes': list(sig.ptypes), 'rtype': sig.rtype, 'today': bool(sig.needs_today), 'ns': self.ns}
             sig.ok = True
             if sig.in_disp:
                 self.disp_outputs.append(code)
@@ -782,7 +931,14 @@ class Context(Ctx):
 
     def run(self):
         self.compute_today()
-        for key in sorted(self.sigs):
+        # functions that test `hasattr(module, name)` go last: their dispatch functions are then numbered after the
+        # ones of the other functions of the file (generated names are referred to by proofs and must stay stable)
+        def late(key):
+            fn = self.mods[key[0]].funcs.get(key[1])
+            return fn is not None and any(isinstance(n, ast.Call) and isinstance(n.func, ast.Name) and n.func.id == 'hasattr'
+                                          for n in ast.walk(fn))
+        keys = sorted(self.sigs)
+        for key in [k for k in keys if not late(k)] + [k for k in keys if late(k)]:
             self.ensure_translated(self.sigs[key])
 
 
@@ -879,6 +1035,7 @@ def main():
     for name, mt in ctx.mods.items():
         manifest['modules'][name] = {'ns': mt.ns, 'deps': sorted(mt.deps)}
     write_if_changed(os.path.join(gen_dir, 'manifest.json'), json.dumps(manifest, indent=0, sort_keys=True))
+    write_if_changed(os.path.join(gen_dir, 'warm.json'), json.dumps(getattr(ctx, 'warm', {}), indent=0, sort_keys=True))
     if not args.quiet:
         full = [n for n in ctx.mods if all(ctx.sigs.get((n, f)) and ctx.sigs[(n, f)].ok for f in ('validate', 'compact') if f in ctx.mods[n].funcs)]
         print('functions: %(ok)d translated, %(fail)d unmodelled' % stats, '| files written:', written,
